@@ -48,6 +48,22 @@ SHORT = {
  "C18_2": "`shrink*` writes the new capacity into the old header before `realloc`",
  "C19_1": "`deserialize_in_place` reserves by the raw size hint",
  "C19_2": "`deserialize_in_place` keeps stale tail elements",
+ "C02_5": "Splice: `remaining_pos_` field removed, tail start taken from `drain_end_`",
+ "C02_6": "new `IntoIter::nth` override whose overshoot path forgets the remaining elements",
+ "C03_3": "Splice guard keeps the cached tail POINTER across `grow` (read of the released block)",
+ "C03_4": "Drop fast path for `cap == 0` deallocates with `Layout::new::<Header>()`",
+ "C05_3": "DrainFilter creation skips the length cut when `!needs_drop::<T>()`",
+ "C05_4": "`DrainFilter::next` republishes `set_len(pos)` on the keep path",
+ "C07_3": "`make_layout` pads header + elements once (block too small for some (cap, align))",
+ "C07_4": "`append` steals `other`'s buffer by `mem::swap` when the receiver is empty (storage moves, capacity changes)",
+ "C08_3": "`append` swap fast path: an over-aligned empty receiver ends up with a naturally aligned block",
+ "C08_4": "Splice guard grows through `with_capacity` + copy + swap (over-alignment lost)",
+ "C10_3": "`size_hint` of Drain / Splice divides the byte distance by `align_of::<T>()`",
+ "C10_4": "Splice: tail start taken from `drain_end_` (wrong after `next_back`)",
+ "C11_3": "`splice`: end-bound check replaced by `checked_sub` placed after `set_len(start)`",
+ "C11_4": "`shrink_to`: `len == capacity` early return swallows a target above the capacity",
+ "C12_3": "`extend_from_slice` memcpy fast path for `!needs_drop` types (IntoIter::clone no longer calls `T::clone`)",
+ "C12_4": "`Clone for MiniVec` allocates once and `set_len`s without the `len > 0` guard (writes the shared sentinel)",
 }
 def main():
     root = os.path.join(os.path.dirname(os.path.abspath(__file__)), "..", "seeded")
